@@ -275,10 +275,10 @@ def check_dense_lip(case):
 
 @st.composite
 def verylong_cases(draw, tier, kind):
-    """Windows of 33..48 samples on traces of 50..90 samples with few distinct values (exact ties inside one window)."""
+    """Windows of 33..48 (sometimes 63..129) samples on traces of 50..170 samples with few distinct values (exact ties inside one window)."""
     x = ('var', 'x')
     pr = ('pred', draw(st.sampled_from(['>=', '>', '<=', '<'])), x, ('const', draw(st.sampled_from([0.0, 1.0]))))
-    b = draw(st.integers(33, 48))
+    b = draw(st.sampled_from(list(range(33, 49)) + [63, 64, 65, 66, 70, 96, 127, 128, 129]))
     a = draw(st.sampled_from([0, 0, 1, 5]))
     ops = ['once', 'historically'] + (['eventually', 'always'] if kind == 'dt_off' else [])
     f = ('tun', draw(st.sampled_from(ops)), a, b, pr)
@@ -286,7 +286,7 @@ def verylong_cases(draw, tier, kind):
         f = ('un', 'not', f)
     if draw(st.booleans()):
         f = ('bin', draw(st.sampled_from(['and', 'or', 'implies'])), f, ('tun', draw(st.sampled_from(['once', 'historically'])), 0, draw(st.integers(33, 40)), ('un', 'not', pr)))
-    n = draw(st.integers(50, 90))
+    n = max(50, b + 2) + draw(st.integers(0, 40))
     vals = st.sampled_from([0.5, 1.5, -1.0, 2.0, 5.0, -3.0, -1.0])
     return {'formula': f, 'vars': ['x'], 'trace': {'x': draw(st.lists(vals, min_size=n, max_size=n))}, 'kind': kind}
 
